@@ -24,6 +24,12 @@ def gen_cases(rng, tier: str) -> list[dict]:
         for bad in c02.offenders(g) + c07.variable_free_offenders(g):
             exprs.append(("offender", gen.wrap_random(g, bad, 1)))
             exprs += [("hidden", h) for h in c07.skipping_parents(g, bad)[:8]]
+        # a variable that occurs only inside an operand the numeric sweeps skip (base one, zero factor, ...), next to a
+        # variable that is visited: whatever is read back per variable afterwards must cope with the one never visited
+        only = X.Variable("v_only")
+        for u in (X.Sine(only), X.Multiply(only, X.Constant(2.0)), X.Add(only, X.Variable("y"))):
+            for h in c07.skipping_parents(g, u)[:-1]:
+                exprs.append(("skipped-variable", rng.choice([X.Multiply(X.Variable("x"), h), X.Add(h, X.Variable("x")), h])))
     exprs += common.expr_stream(rng, tier, common.sizes(tier, 150, 2500), depth_q=4, depth_t=6, names=("x", "y", "z"), share=0.2, max_size=150)
     # inputs whose symbolic derivative exceeds the 1000-step budget: the fallback path of the rewriter
     from . import c08
